@@ -1,6 +1,7 @@
 SPECIFICATION Spec
 CONSTANTS
   NFaults = 2
+  MaxWrap = 40
   Emitting = FALSE
 INVARIANT DecTotal
 INVARIANT UnalignedIsBad
